@@ -169,6 +169,49 @@ def run(ctx):
         inst["flow"] = [[u, v, (qstr(frac(q) + rng.choice([1, 2, 7])) if (u, v) in ig else q)] for u, v, q in inst["flow"]]
         inst["options"] = {}
         k5_case(ctx, inst, suite="K5.ignored")
+    large_value_cases(ctx)
+    nearly_conserving_cases(ctx)
+
+
+def large_instance(rng, cls):
+    """planted weights in the hundreds / thousands, MILP route: the solver reports integer weights such as 557.9999999999999"""
+    nodes, edges = gen.dag(rng, n=rng.randint(4, 7), min_edges=5)
+    touched = {x for e in edges for x in e}
+    nodes = [v for v in nodes if v in touched]
+    f, paths, ws = gen.flow_from_paths(rng, nodes, edges, wtype=int, cover=True, npaths=rng.randint(0, 2),
+                                       weights=[rng.randint(50, 6000) for _ in range(6)])
+    inst = {"cls": cls, "nodes": nodes, "edges": [list(e) for e in edges], "origin": "edge", "weight_type": "int",
+            "constraints": [], "coverage": "1", "starts": [], "ends": [], "ignore": [],
+            "flow": [[u, v, qstr(f[(u, v)])] for (u, v) in edges], "options": {"optimize_with_greedy": False}}
+    if cls == "kFlowDecomp":
+        inst["k"] = len(paths)
+    return inst
+
+
+def large_value_cases(ctx, suite="K5.large_values"):
+    for it in range(ctx.n(60, 600)):
+        k5_case(ctx, large_instance(ctx.rng, ctx.rng.choice(["kFlowDecomp", "MinFlowDecomp"])), suite=suite)
+
+
+def nearly_conserving_cases(ctx, suite="K5.nearly_conserving"):
+    """a conserving flow scaled by 10^9..10^12 with ONE edge off by one (plain ints): whatever the class does with it
+    (documented: ValueError), a decomposition it reports as solved has to explain every edge exactly"""
+    rng = ctx.rng
+    for it in range(ctx.n(12, 120)):
+        inst = fd_instance(rng, rng.choice(["kFlowDecomp", "MinFlowDecomp"]))
+        inst["weight_type"] = "int"
+        inst["options"] = {}
+        inst.pop("given_weights", None)
+        scale = 10 ** rng.randint(9, 12)
+        inner = [i for i, (u, v, q) in enumerate(inst["flow"])]
+        j = rng.choice(inner)
+        inst["flow"] = [[u, v, qstr(frac(q) * scale + (1 if i == j else 0))] for i, (u, v, q) in enumerate(inst["flow"])]
+        if any(frac(q).denominator != 1 for _, _, q in inst["flow"]):
+            continue
+        inst["k"] = inst.get("k", 3) + 1 if inst["cls"] == "kFlowDecomp" else inst.get("k")
+        if inst["k"] is None:
+            inst.pop("k")
+        k5_case(ctx, inst, suite=suite)
 
 
 def search(ctx):
